@@ -1188,7 +1188,8 @@ def _run(world: World, plan):
         m = len(msgs)
         full = [p for p in range(len(frames) + 1) if ok[p][m]]
         # legit end of the link before the end of the list?
-        closer_seen = any(cls_name(x) in CLOSERS[fam] for x in msgs)
+        closer_seen = t_closing is not None and any(
+            cls_name(x) in CLOSERS[fam] and t <= t_closing + EPS for (t, _it, x) in events)
         if fam == 'dist' and t_closing is not None and any(t <= t_closing + EPS for t in reset_times):
             closer_seen = True
         torn = lk['torn'] is not None
@@ -1225,6 +1226,13 @@ def _run(world: World, plan):
                               expected=label_at(nxt), got=cls_name(got) if got else None, after=label_at(p_best - 1))
             continue
         p_min, p_max = full[0], full[-1]
+        if closer_seen:
+            # a link-closing message was delivered (possibly out of a malformed frame that is still a legal
+            # message) and the client closed the link: the expected sequence ends there; the prefix test
+            # above already showed that everything before it was delivered once and in order
+            world.probe('link_closed_by_closer_' + fam)
+            nontrivial = True
+            continue
         if torn:
             if p_max < must_upto:
                 world.violate('C02.delivery', link=name, what='frame that arrived before the teardown not delivered',
@@ -1236,11 +1244,7 @@ def _run(world: World, plan):
                 world.probe('teardown_closed_' + lk['torn'])
             continue
         if lk['state_at_probe'] == 'CLOSED':
-            # no injected teardown: only a link-closing message explains this
-            if closer_seen:
-                world.probe('link_closed_by_closer_' + fam)
-                nontrivial = True
-                continue
+            # no injected teardown, no link-closing message delivered: nothing explains this
             last_arrived = None
             for i, f in enumerate(frames):
                 if f.get('arrived') is not None and f['arrived'] <= (t_closing or 0) + EPS:
@@ -1254,10 +1258,6 @@ def _run(world: World, plan):
             continue
         probe_delivered = lk['probe'] is not None and any(x == lk['probe']['msg'] for x in msgs[-1:])
         t_closing_late = closing_at(conn)
-        if t_closing_late is not None and closer_seen:
-            # closed by a closer that was handled after the probe was written
-            world.probe('link_closed_by_closer_' + fam)
-            continue
         if t_closing_late is not None and not probe_delivered:
             world.violate('C02.delivery', link=name, what='link closed by the client', reason=close_reason(conn),
                           after=label_at(p_max - 1), badfirst=bool(badfirst))
